@@ -100,4 +100,52 @@ def toProgram : List (Line P) → Option Program
   | .version :: .includeLib :: rest => (rest.mapM Line.toStmt).map fun l => ⟨true, l.filterMap id⟩
   | _ => none
 
+/-! ### running the exported lines
+
+The same branching semantics as `Spec.OQ2.run` of the program the lines spell (`runApp`, `runOp`, `slice` are the
+ones of `Spec/OQ2.lean`), except that the value of a displayed parameter is taken from the model (`Arg.eval`)
+instead of being re-read from its decimal text — what lies between the two is Rust's `Display for f64` and
+`str::parse`, checked on every generated case by (A) and (B). -/
+
+section run
+variable {α : Type} [Zero α] [One α] [Add α] [Mul α] [Neg α] [Sub α] [Amp α P] [Angle P]
+
+/-- the registers an exported program declares -/
+def exportRegs (nq nc : Nat) : Regs :=
+  ⟨if nq > 0 then [("q", nq)] else [], if nc > 0 then [("b", nc)] else []⟩
+
+def Chunk.run (n : Nat) (rg : Regs) (c : Chunk P) (br : Branch α) : Option (List (Branch α)) :=
+  match c.app with
+  | none => none
+  | some a => do
+    let vals ← a.args.mapM Arg.eval
+    let qs ← a.qargs.mapM QRef.toQArg
+    match c.conds with
+    | [] => runApp (α := α) n rg a.name vals qs br
+    | [k] =>
+      match findReg rg.cregs "b" with
+      | none => none
+      | some (off, sz) => if slice br.2 off sz = k then runApp (α := α) n rg a.name vals qs br else some [br]
+    | _ => none
+
+def Line.run (n : Nat) (rg : Regs) (nonzero : List α → Bool) (l : Line P) (br : Branch α) :
+    Option (List (Branch α)) :=
+  match l with
+  | .version | .includeLib | .qreg _ | .creg _ => some [br]
+  | .gate c => c.run n rg br
+  | .measure q c => do runOp (P := P) n rg nonzero (.measure (← q.toQArg) (← c.toQArg)) br
+  | .reset q => do runOp (P := P) n rg nonzero (.reset (← q.toQArg)) br
+  | .barrier qs => do runOp (P := P) n rg nonzero (.barrier (← qs.mapM QRef.toQArg)) br
+
+def linesRun (n : Nat) (rg : Regs) (nonzero : List α → Bool) : List (Line P) → List (Branch α) →
+    Option (List (Branch α))
+  | [], brs => some brs
+  | l :: ls, brs => (brs.mapM (Line.run n rg nonzero l)).bind fun r => linesRun n rg nonzero ls r.flatten
+
+/-- all branches of one shot of the exported program, from `|0…0⟩` and the all-zero register -/
+def exportedRun (nonzero : List α → Bool) (nq nc : Nat) (ls : List (Line P)) : Option (List (Branch α)) :=
+  linesRun nq (exportRegs nq nc) nonzero ls [(zeroState nq, 0)]
+
+end run
+
 end Q1t.OpenQasm
